@@ -11,4 +11,5 @@ Extraction "model.ml" pstep sstep wf_from outstanding
   step connect disconnect drain init_node n_set_repl n_set_sup strat_to_str Z_to_str flush_snapshots http_request dflush drestart snapshot_plan load_db apply_fops
   settle deliver reply poll_sup poll_repl_c client_cmd client_conn add_sec init_cnode get_cn put_cn cn_set_node get_sess n_set_clock
   run_par new_thread dflush_crash dflush_plan is_sc
-  mstart mcmd mconnect mpoll mflush mshutdown mcrash decode_rec keymap_bytes mtake_before is_msc mf_empty apply_mops dedup_snap drop_link resync.
+  mstart mcmd mconnect mpoll mflush mshutdown mcrash decode_rec keymap_bytes mtake_before is_msc mf_empty apply_mops dedup_snap drop_link resync
+  s3_flush s3_restart stub0.
